@@ -1026,7 +1026,8 @@ class Array:
         if len(match) == 0:
             if insert:
                 res = np.zeros(self._get_block_shape(qindices), dtype=self.dtype)
-                self._data.append(res)
+                # new list: `_data` may be shared with shallow copies, which must not see the new block
+                self._data = self._data + [res]
                 self._qdata = np.append(self._qdata, [qindices], axis=0)
                 self._qdata_sorted = False
                 return res
